@@ -2,6 +2,7 @@ import fam_seq
 import fam_loctext
 import fam_region
 import fam_feat
+import fam_alpha
 
 
 def lookup(prop):
@@ -13,4 +14,6 @@ def lookup(prop):
         return fam_region.run
     if prop == "C19":
         return fam_feat.run
+    if prop == "C18":
+        return fam_alpha.run
     return None
